@@ -48,8 +48,9 @@ type Spec struct {
 	Via        string     `json:"via"`             // referral | domain_realm
 	TGTLives   []LifeSpec `json:"tgt_lives,omitempty"`
 	SvcLives   []LifeSpec `json:"svc_lives,omitempty"`
-	KDCs       int        `json:"kdcs"`          // configured KDC hosts for the client's realm (1..3), all answering
-	Loop       bool       `json:"referral_loop"` // SPN 2 lives in a realm nobody reaches: the KDCs refer the client round in a circle
+	KDCs       int        `json:"kdcs"`                // configured KDC hosts for the client's realm (1..3), all answering
+	DupKDC     bool       `json:"duplicate_kdc_entry"` // the client's realm lists its first KDC host twice in a row (kdc = A, kdc = A, kdc = B ...)
+	Loop       bool       `json:"referral_loop"`       // SPN 2 lives in a realm nobody reaches: the KDCs refer the client round in a circle
 }
 
 var ETypeNames = map[int32]string{16: "des3-cbc-sha1-kd", 17: "aes128-cts-hmac-sha1-96", 18: "aes256-cts-hmac-sha1-96",
@@ -142,6 +143,9 @@ func Build(s *Spec) (*World, error) {
 			}
 			w.Servers = append(w.Servers, srv)
 			kdcs[r.Name] = append(kdcs[r.Name], srv.Addr)
+			if i == 0 && k == 0 && s.DupKDC {
+				kdcs[r.Name] = append(kdcs[r.Name], srv.Addr)
+			}
 		}
 	}
 	var salt *string
